@@ -5,8 +5,13 @@ from .common import bump
 ID = "C13"
 AREA = "c13"
 LEAN_PROPS = "Litep2pVerif.Props.C13"
-THEOREMS = ["at_most_one_terminal", "request_located", "active_owned", "exactly_one_at_quiescence", "response_matches",
-            "responder_sees_once", "inbound_delivered", "inbound_bound", "cancel_effect"]
+THEOREMS = ["at_most_one_terminal", "request_located", "active_owned", "exactly_one_at_quiescence",
+            "parked_only_while_dial_owed", "dial_answer_settles", "response_matches",
+            "responder_sees_once", "inbound_delivered", "inbound_bound", "cancel_effect", "outcome_translation_total",
+            "error_kind_translation", "handle_stream_faithful", "request_ids_and_channel", "answer_at_most_once"]
+CONST_TABLE = [
+    ("RR_COMMAND_CHANNEL_SIZE", "src/lib.rs", r"const DEFAULT_CHANNEL_SIZE: usize = (\d+)usize;", 4096),
+]
 MANIFEST = {
     "text": "Lean 4 theorems about an operational model of RequestResponseProtocol (same state components and handler "
             "order as request_response/mod.rs; every interleaving of user commands, transport events and completions of "
